@@ -366,7 +366,16 @@ def well_founded(rs: RefSchema) -> bool:
             if best is not None and best + 2 < size[n]:
                 size[n] = best + 2
                 changed = True
-    return all(size[n] < INF for n in rs.nodes)
+    if not all(size[n] < INF for n in rs.nodes):
+        return False
+    # every node that can be opened can be closed: every reachable live state of every content expression
+    # has a completion made of generatable nodes (the fitter and fill_before rely on it; upstream's
+    # dead-end check only looks one step ahead)
+    for n in rs.nodes:
+        for st in rx.states(rs.content[n], limit=400):
+            if _min_fill(rs, st, size) is None:
+                return False
+    return True
 
 
 def _min_fill(rs: RefSchema, r: tuple, size: dict[str, int]) -> int | None:
@@ -445,3 +454,20 @@ def pick_schema(R: Draw, names: list[str], p_random: float = 0.0) -> Any:
         if spec is not None:
             return spec
     return R.choice(names)
+
+
+_wf: dict[str, bool] = {}
+
+
+def in_domain(ref: Any) -> bool:
+    """Zoo schemas are in the domain by definition; a spec dict must be well-founded by the current definition
+    (matters when replaying stored cases made under an older, weaker definition)."""
+    if isinstance(ref, str):
+        return True
+    key = json.dumps(ref, sort_keys=False)
+    if key not in _wf:
+        _lib, rs = get(ref)
+        _wf[key] = well_founded(rs)
+        if len(_wf) > 500:
+            _wf.clear()
+    return _wf[key]
